@@ -220,6 +220,20 @@ def check(ck):
             ck.require(adapter_ok(fi, t, pred), "C13.4", label, "config = %s" % prov.show(t),
                        "the reply is built with %s: not the per-request adapter {server config | private copy with "
                        "version 1.0} computed from this request" % prov.show(t), q.loc(fi, n))
+    # replies that cannot follow a request (unparsable text, empty request, failure of the whole marshaling, failure of the HTTP
+    # handler) are built in the server's own form: their Fault carries the server's configuration itself
+    covered = set([fs.fq, fv.fq, fd.fq])
+    for st_ in all_fault_sites:
+        if st_.fi.fq in covered:
+            continue
+        t = st_.origin("config", 3)
+        own = t is not None and all(q.self_attr(a, "json_config") or
+                                    (a[0] == "call" and a[1] == ("global", "getattr") and len(a[2]) >= 2 and a[2][1] == ("const", "json_config"))
+                                    for a in prov.value_alts(t))
+        ck.require(own, "C13.4", "%s: Fault(%s) config=" % (q.fn(st_.fi), st_.code()), "the server's own configuration",
+                   "the reply Fault(%s) of %s is built with %s: not the configuration of this server (a server configured for 1.0 answers "
+                   "in the form of the shared DEFAULT configuration)" % (st_.code(), st_.fi.name, prov.show(t) if t is not None else "no config= at all"),
+                   q.loc(st_.fi, st_.node))
     # callers of _dispatch pass the adapter; the adapter is guarded by the request's own members
     gs = cfg_of(fs)
     for (n, c, r) in common.callees(prog, fs):
